@@ -118,7 +118,8 @@ def build(world, strata, prop, quick, rnd):
             lonv = cmz + dl
             if not (-180 <= lonv < 180):
                 continue
-            evs.append(world.tma_event(lat, lonv, zone, ell, prj, "tma"))
+            # the position is handed over as floats or as objects of each of the five angle classes in turn
+            evs.append(world.tma_event(lat, lonv, zone, ell, prj, "tma", args=["float", "dec", "hp", "gon", "dms", "ddm", "float"][k % 7]))
     if "ZONE" in kinds:
         step = 7 if quick else 1
         for pr in (("utm", gc.utm), ("zw8", gc.Projection(500000, 10000000, 0.9996, 8, -176))):
